@@ -254,9 +254,15 @@ func (w *world) simulate(choices []int) {
 		if len(w.found) >= 2 && !w.returned {
 			w.faults["simultaneous_finds"] = 1
 		}
-		if len(k.Trace) >= cfg.StepCap && !w.returned && !w.cancelDelivered && hasCanceller && !w.cancelFired && !w.replay && !w.forcedCancel {
+		capCancel := hasCanceller && cfg.Prop == "C13"
+		if len(k.Trace) >= cfg.StepCap && !w.returned && !w.cancelDelivered && capCancel && !w.cancelFired && !w.replay && !w.forcedCancel {
 			w.forcedCancel = true
 			w.probes["step_cap_cancel"] = 1
+		}
+		if len(k.Trace) == cfg.StepCap && !w.returned && !capCancel && !w.replay {
+			// this run is meant to end with a find: end any unfairness of the strategy instead of cancelling
+			k.SetStrategy(kernel.RoundRobin{})
+			w.probes["step_cap_fair"] = 1
 		}
 
 		// which actions are enabled
@@ -604,7 +610,11 @@ func (w *world) judgeNonce(st *stub) {
 		var z int
 		if st != nil {
 			z = ref.TrailingZeros(st.Trits(n))
-			w.res.Tags["returned_zeros_minus_required"] = fmt.Sprint(z - st.cc.z)
+			if d := z - st.cc.z; d <= 2 {
+				w.res.Tags["returned_zeros_minus_required"] = fmt.Sprint(d)
+			} else {
+				w.res.Tags["returned_zeros_minus_required"] = ">2"
+			}
 		} else {
 			z = ref.TrailingZeros(ref.PowHash(msg))
 			got := pow1.Score(msg)
